@@ -320,3 +320,84 @@ pub proof fn lemma_chistory_c11(w0: World, steps: Seq<CStep>, id: u32)
     assert(appr_raw(w, id).is_some());
     assert(cowner(w, id) == (cmodel(steps).owner)(id));
 }
+
+// ---- non-vacuity witness: a genesis world exists, and "mint a batch of 2, transfer id 0, let time pass" is a
+//      valid history from it (so the guards used above are satisfiable and the invariants are not empty) ----
+pub open spec fn cw_empty() -> World {
+    World { instance: Map::empty(), persistent: Map::empty(), temporary: Map::empty(), temp_live: Map::empty(),
+        ledger_seq: 7, timestamp: 0, max_entry_ttl: 10, min_temp_ttl: 1, network_id: Seq::empty(), this: Address { id: 0 },
+        auths: Set::empty(), auth_args: Set::empty(), self_auths: Seq::empty(), events: Seq::empty(), calls: Seq::empty(), ext: 0 }
+}
+pub proof fn lemma_consec_witness()
+    ensures
+        cgenesis(cw_empty()),
+        cvalid(cw_empty(), seq![
+            CStep::Op(COp::BatchMint { to: Address { id: 1 }, amount: 2 }),
+            CStep::Op(COp::Transfer { from: Address { id: 1 }, to: Address { id: 2 }, id: 0 }),
+            CStep::Tick { seq: 9, ts: 1 }]),
+{
+    broadcast use sdk_store;
+    let w0 = cw_empty();
+    let a1 = Address { id: 1 };
+    let a2 = Address { id: 2 };
+    let op1 = COp::BatchMint { to: a1, amount: 2 };
+    let op2 = COp::Transfer { from: a1, to: a2, id: 0 };
+    let s3 = seq![CStep::Op(op1), CStep::Op(op2), CStep::Tick { seq: 9, ts: 1 }];
+    let s2 = s3.drop_last();
+    let s1 = s2.drop_last();
+    let s0 = s1.drop_last();
+    assert(s0.len() == 0);
+    assert(cvalid(w0, s0));
+    lemma_chistory(w0, s0);
+    let r0 = crun(w0, s0);
+    // batch mint of ids 0, 1 to a1
+    assert(s1.last() == CStep::Op(op1));
+    assert(counter(r0) == 0 && bal(r0, a1) == 0);
+    assert(bucket_of(r0, 0).is_none());
+    assert(batch_guard(r0, a1, 2));
+    assert(cvalid(w0, s1));
+    lemma_chistory(w0, s1);
+    let r1 = crun(w0, s1);
+    lemma_cop_c10(r0, op1);
+    let p1 = cop_post(r0, op1);
+    lemma_same_store(p1, r1);
+    lemma_cowner_same(p1, r1);
+    lemma_batch_view(r0, a1, 2);
+    assert(cowner(r1, 0) == Some(a1));
+    assert(counter(r1) == 2 && bal(r1, a1) == 2 && bal(r1, a2) == 0);
+    assert(!is_burned(r1, 0));
+    // a1 transfers id 0 to a2
+    assert(s2.last() == CStep::Op(op2));
+    let wa = w_auth(r1, a1);
+    lemma_same_store(r1, wa);
+    lemma_cowner_same(r1, wa);
+    lemma_inv_same(r1, wa);
+    let wd = tdel(dec_bal_post(wa, a1, 1), ck_appr(0));
+    assert(!prev_applies(wd, 0));
+    let wm = cupd_mid(wa, Some(a1), 0);
+    assert(wm == wd);
+    lemma_bal_write_frame(wa, a1, 1u32.sv());
+    lemma_same_store(dec_bal_post(wa, a1, 1), wd);
+    assert(bal(wm, a2) == 0);
+    let wi = inc_bal_post(wm, a2, 1);
+    lemma_bal_write_frame(wm, a2, 1u32.sv());
+    let wo = pset(wi, ck_owner(0), a2.sv());
+    lemma_owner_write_view(wi, 0, a2);
+    assert(counter(wo) == 2);
+    assert(bucket_of(wa, 0).is_some());
+    assert(bucket_of(wo, 0) == bucket_of(wa, 0)) by {
+        assert(bucket_of(wo, 0) == bucket_of(wi, 0));
+        assert(bucket_of(wi, 0) == bucket_of(wm, 0));
+        assert(bucket_of(dec_bal_post(wa, a1, 1), 0) == bucket_of(wa, 0));
+    }
+    assert(setbit_guard(wo, 0));
+    assert(cupdate_guard(wa, Some(a1), Some(a2), 0));
+    assert(cop_guard(r1, op2));
+    assert(cvalid(w0, s2));
+    // the ledger advances from 7 to 9
+    lemma_chistory(w0, s2);
+    assert(crun(w0, s2).ledger_seq == 7) by {
+        lemma_cop_c10(r1, op2);
+    }
+    assert(cvalid(w0, s3));
+}
